@@ -194,12 +194,14 @@ def run(prog: Program, col: Collector, tier: str, refs: Optional[Refs] = None, c
             bad = None
             for n in walk_no_nested(minit.node):
                 if isinstance(n, ast.Assign) and any(isinstance(t, ast.Name) and t.id == cparam for t in n.targets) and n.lineno < st.lineno:
-                    par = minit.module.parent.get(n)
-                    t = par.test if isinstance(par, ast.If) else None
-                    is_none = isinstance(t, ast.Compare) and len(t.ops) == 1 and isinstance(t.ops[0], ast.Is) and norm(t.left) == cparam \
-                        and isinstance(t.comparators[0], ast.Constant) and t.comparators[0].value is None and n in par.body
-                    isnot_none_else = isinstance(t, ast.Compare) and len(t.ops) == 1 and isinstance(t.ops[0], ast.IsNot) and norm(t.left) == cparam and n in par.orelse
-                    if not (is_none or isnot_none_else):
+                    from .common import guarding_branch
+                    gb = guarding_branch(minit.module, n)
+                    okg = False
+                    if gb is not None:
+                        _, t, pos, _ = gb
+                        if isinstance(t, ast.Compare) and len(t.ops) == 1 and norm(t.left) == cparam and isinstance(t.comparators[0], ast.Constant) and t.comparators[0].value is None:
+                            okg = (isinstance(t.ops[0], ast.Is) and pos) or (isinstance(t.ops[0], ast.IsNot) and not pos)
+                    if not okg:
                         bad = n
             col.check(bad is None, construct, "the caller's cache is used unless it is None", f"the cache parameter is replaced under a condition other than `{cparam} is None` "
                       f"(`{norm(bad) if bad is not None else ''}`): an empty dict supplied by the caller is dropped", minit.loc(st))
